@@ -547,6 +547,23 @@ class Engine:
                 raise Unsupported(f'{self.c.qual}: loop {k} (line {n.lineno}) has no invariant')
             return self.unrolled_while(n)
         lc = self.c.loops[k]
+        if lc.unroll:
+            # complete unrolling: after lc.unroll iterations the guard must be false (unwinding obligation)
+            for _ in range(lc.unroll):
+                if not self.branch(self.truth(self.eval(n.test))):
+                    self.exec_block(n.orelse)
+                    return
+                try:
+                    self.exec_block(n.body)
+                except _Continue:
+                    pass
+                except _Break:
+                    return
+            g = self.truth(self.eval(n.test))
+            self.oblige(f'loop{k}.unwind', 'complete', z3.Not(zbool(g)) if not isinstance(g, bool) else (not g))
+            self.assume(z3.Not(zbool(g)) if not isinstance(g, bool) else z3.BoolVal(not g))
+            self.exec_block(n.orelse)
+            return
         self.loop_entry(k, lc)
         self.havoc_loop(n, lc)
         for label, inv in lc.inv():
@@ -815,6 +832,8 @@ class Engine:
 
     # ------------------------------------------------------------------ expressions
     def truth(self, v):
+        if hasattr(v, 'truthy'):
+            return v.truthy()
         return v if isinstance(v, bool) else zbool(v)
 
     def eval(self, e):
@@ -889,6 +908,8 @@ class Engine:
             return self.getattr(base.val, attr, text)
         if isinstance(base, TD):
             us = zint(base.us)
+            if base.parts is not None and attr in ('days', 'seconds', 'microseconds'):
+                return base.parts[('days', 'seconds', 'microseconds').index(attr)]
             if attr == 'days':
                 return floordiv(us, z3.IntVal(86400 * 10**6))
             if attr == 'seconds':
@@ -1124,6 +1145,9 @@ class Engine:
         if hasattr(b, 'binop'):
             return b.binop(self, op, a, True)
         if isinstance(a, str) or isinstance(b, str):
+            if isinstance(op, ast.Mod) and isinstance(a, str):
+                from .models.text import percent_format
+                return percent_format(self, a, b, e)
             if isinstance(op, ast.Mod):
                 return Opaque('formatted')
             if isinstance(op, ast.Add) and isinstance(a, str) and isinstance(b, str):
@@ -1152,6 +1176,9 @@ class Engine:
             return zreal(za) / zreal(zb)
         if isinstance(op, ast.FloorDiv):
             self.oblige('safety', 'div:' + txt, zb != 0)
+            if real and za.sort() == INT and isinstance(b, float) and b == int(b) and b != 0:
+                # int // integral float constant: floor of the exact quotient == integer floor division
+                return z3.ToReal(floordiv(za, z3.IntVal(int(b))))
             if real:
                 return z3.ToReal(z3.ToInt(zreal(za) / zreal(zb)))
             return floordiv(za, zb)
@@ -1300,6 +1327,10 @@ class Engine:
             if name in self.world and callable(self.world[name]) and self.in_spec:
                 args, kwargs = self.args(e)
                 return self.call_value(self.world[name], args, kwargs, e)
+            if name == 'isinstance':
+                t = e.args[1]
+                return self.isinstance(self.eval(e.args[0]),
+                                       [ast.unparse(x) for x in (t.elts if isinstance(t, ast.Tuple) else [t])])
             args, kwargs = self.args(e)
             r = self.builtin(name, args, kwargs, e)
             if r is not NotImplemented:
@@ -1386,6 +1417,9 @@ class Engine:
             return None
         if isinstance(recv, Slice) and name == 'tobytes':
             return recv
+        if recv == '' and name == 'join' and isinstance(args[0], PyList):
+            from .models.text import Joined
+            return Joined(list(args[0].items))
         if isinstance(recv, dict) and name == 'get':
             return recv.get(args[0], args[1] if len(args) > 1 else None)
         if hasattr(recv, 'method'):
